@@ -86,3 +86,50 @@ def children_in_selector(cx, rule, what):
     cx.ob(rule, "%s:selector" % what, ok and not others,
           "Node::children_in returns an output exactly when its kind equals the kind asked for AND its `on` equals the `on` asked for%s" % (
               "" if (ok and not others) else " - but the filter %s%s" % (why, (", extra adaptors %s" % [c.q.split("::")[-1] for c in others]) if others else "")), g.loc())
+
+
+
+EVENTS = {"Push", "Remove", "Submit", "Next", "Back", "Cancel", "Abort", "Skip", "Error", "SetVars", "SetProcessVars"}
+
+
+def event_arm_of(m, f, b):
+    """the set of EventAction variants under which block b of f runs (guards on `<x>.event`), or None"""
+    from vlib.model import guards_of, discr_variants
+    arms = None
+    for g in guards_of(m, f, b, mode="alias"):
+        if g.root[0] == "discr":
+            vs = discr_variants(m, g)
+            if vs and vs <= EVENTS:
+                r = g.root[1]
+                if r[0] in ("call", "local", "param") and "event" in r[3]:
+                    arms = vs if arms is None else (arms & vs)
+    return arms
+
+
+def keys_read_by_update(m):
+    """{event: set(option keys the arm of Task::update reads with get_var)}, {event: set(required keys: ok_or on the lookup)}"""
+    import re
+    from vlib.model import Prov, Call
+    pv = Prov(m, "value")
+    pa = Prov(m, "alias")
+    f = m.one(r"^acts::scheduler::process::task::Task::update$")
+    read, required = {}, {}
+    for c in f.calls():
+        if re.search(r"Context::get_var(::<.*>)?$", c.q):
+            arms = event_arm_of(m, f, c.b)
+            k = pv.root(f, c.args[1])
+            key = k[1].get("str") if k[0] == "const" else None
+            if arms and key:
+                for e in arms:
+                    read.setdefault(e, set()).add(key)
+    for c in f.calls():
+        if re.search(r"Option::<.*>::ok_or(_else)?$", c.q):
+            r = pa.root(f, c.args[0])
+            if r[0] == "call" and re.search(r"Context::get_var(::<.*>)?$", r[1]):
+                arms = event_arm_of(m, f, c.b)
+                k = pv.root(f, Call(f, r[2]).args[1])
+                key = k[1].get("str") if k[0] == "const" else None
+                if arms and key:
+                    for e in arms:
+                        required.setdefault(e, set()).add(key)
+    return read, required
